@@ -2938,6 +2938,9 @@ static int32_t parseGeneralNames(psPool_t *pool, const unsigned char **buf,
 #   define MIN_GENERALNAME_LEN 3 /* 1 tag, 1 length octet, 1 content octet.*/
     while (len >= MIN_GENERALNAME_LEN)
     {
+        /* per entry: one entry with a trailing zero byte must not change
+           how the following entries are terminated and measured */
+        terminating_nils = 1;
         if (firstName == NULL)
         {
             activeName = firstName = psMalloc(pool, sizeof(x509GeneralName_t));
